@@ -212,15 +212,22 @@ class SInt:
     def _cmp(self, o, f):
         if not is_intlike(o):
             return NotImplemented
+        if isinstance(o, int) and not (-(1 << (W - 1)) <= o < (1 << (W - 1))):
+            # a constant outside the model's range compares like +-infinity
+            return bool(f(0, 1)) if o > 0 else bool(f(1, 0))
         return mk_bool(z3.simplify(f(self.e, to_bv(o))))
 
     def __eq__(self, o):
         if not is_intlike(o):
             return False
+        if isinstance(o, int) and not (-(1 << (W - 1)) <= o < (1 << (W - 1))):
+            return False
         return mk_bool(z3.simplify(self.e == to_bv(o)))
 
     def __ne__(self, o):
         if not is_intlike(o):
+            return True
+        if isinstance(o, int) and not (-(1 << (W - 1)) <= o < (1 << (W - 1))):
             return True
         return mk_bool(z3.simplify(self.e != to_bv(o)))
 
